@@ -13,4 +13,4 @@ def run(ctx):
     # "no NMT state change, PDO or SYNC reconfiguration or other timer activity shifts, duplicates or suppresses a heartbeat": the heartbeat
     # producer next to every other service and timer of the node (product model CoFull)
     import full_check
-    full_check.run(ctx, 400 if ctx.tier == "quick" else 20000)
+    full_check.run(ctx, 400 if ctx.tier == "quick" else 6000)
